@@ -526,3 +526,302 @@ Proof.
   - apply same_but_refl.
   - intros. apply disjointN_nil.
 Qed.
+
+(* ------------------------------------------------------------------------------------------------- *)
+(* E. the up-front type check                                                                         *)
+(* ------------------------------------------------------------------------------------------------- *)
+Lemma first_bad_none t : first_bad t = None <-> forallb entry_ok t = true.
+Proof.
+  induction t as [|x t IH]; [split; reflexivity|]. cbn [first_bad forallb]. destruct (entry_ok x); cbn [andb].
+  - rewrite <- IH. destruct (first_bad t); cbn [option_map]; split; intros; congruence.
+  - split; discriminate.
+Qed.
+
+Lemma first_bad_some t : forall i, first_bad t = Some i ->
+  (exists x, nth_error t i = Some x /\ entry_ok x = false) /\ forallb entry_ok (firstn i t) = true.
+Proof.
+  induction t as [|x t IH]; intros i H; [discriminate|]. cbn [first_bad] in H. destruct (entry_ok x) eqn:E.
+  - destruct (first_bad t) as [j|]; [|discriminate]. cbn [option_map] in H. inversion H; subst.
+    destruct (IH j eq_refl) as [[y [H1 H2]] H3]. split.
+    + exists y. split; [exact H1 | exact H2].
+    + cbn [firstn forallb]. rewrite E, H3. reflexivity.
+  - inversion H; subst. split; [exists x; split; [reflexivity | exact E] | reflexivity].
+Qed.
+
+Theorem subst_rejects_first st t e :
+  forallb entry_ok t = false ->
+  exists i, first_bad t = Some i /\ substitute_call st t e = (st, TypeErr i).
+Proof.
+  intros H. destruct (first_bad t) as [i|] eqn:F.
+  - exists i. split; [reflexivity|]. unfold substitute_call. destruct t; [discriminate|]. rewrite F. reflexivity.
+  - apply first_bad_none in F. congruence.
+Qed.
+
+Theorem subst_accepts st t e :
+  forallb entry_ok t = true ->
+  substitute_call st t e = (match t with [] => st | _ => [] end, Done (substitute (untyped t) e)).
+Proof.
+  intros H. apply first_bad_none in H. unfold substitute_call. destruct t as [|x t]; [reflexivity|].
+  rewrite H. destruct x as [[[k v] tk] tv]. reflexivity.
+Qed.
+
+(* the fresh sub-walker used for a quantifier body re-checks a sub-map of an already accepted map: it never raises *)
+Lemma recheck_passes t t' : forallb entry_ok t = true -> incl t' t -> first_bad t' = None.
+Proof.
+  intros H Hinc. apply first_bad_none. apply forallb_forall. intros x Hx.
+  rewrite forallb_forall in H. apply H. apply Hinc. exact Hx.
+Qed.
+
+(* ------------------------------------------------------------------------------------------------- *)
+(* F. leaf keys: the result evaluates like the original under the interpretation updated by the map    *)
+(* ------------------------------------------------------------------------------------------------- *)
+Lemma values_eqb_eq a : forall b, values_eqb a b = true <-> a = b.
+Proof.
+  induction a as [|x a IH]; intros [|y b]; cbn [values_eqb]; try (split; [discriminate | intros H; discriminate H]); [tauto|].
+  rewrite andb_true_iff, value_eqb_eq, IH. split; [intros [-> ->]; reflexivity | intros H; inversion H; auto].
+Qed.
+
+Lemma values_eqb_refl a : values_eqb a a = true.
+Proof. apply values_eqb_eq. reflexivity. Qed.
+
+Lemma evals_ground sc I args ws : ground_args args = Some ws -> evals sc I args = Some ws.
+Proof.
+  revert ws. induction args as [|a args IH]; intros ws H.
+  - inversion H. reflexivity.
+  - cbn [ground_args] in H. destruct a; try discriminate.
+    destruct (ground_args args) as [us|]; [|discriminate]. inversion H; subst.
+    cbn [evals]. rewrite (IH us eq_refl). reflexivity.
+Qed.
+
+Lemma unread_ground s args ws : ground_args args = Some ws -> forallb (unread s) args = true.
+Proof.
+  revert ws. induction args as [|a args IH]; intros ws H; [reflexivity|].
+  cbn [ground_args] in H. destruct a; try discriminate.
+  destruct (ground_args args) as [us|]; [|discriminate]. cbn [forallb unread]. rewrite (IH us eq_refl). reflexivity.
+Qed.
+
+(* J differs from I only in entries that are keys of s *)
+Definition related (s : smap) (I J : interp) : Prop :=
+  objs J = objs I /\ ifun J = ifun I /\
+  (forall q, key_par s q = false -> par J q = par I q) /\
+  (forall x, key_var s x = false -> var J x = var I x) /\
+  (forall g ws, key_fl s g ws = false -> fl J g ws = fl I g ws).
+
+Lemma related_refl s I : related s I I.
+Proof. repeat split. Qed.
+
+Lemma related_bind s I J v o : related s I J -> related s (bind_var I v o) (bind_var J v o).
+Proof.
+  intros (a & b & c & d & e). repeat split; try assumption.
+  intros x Hx. cbn [bind_var var]. destruct (x =? v)%N; [reflexivity | apply d; exact Hx].
+Qed.
+
+Lemma inst_related s (F : interp -> option bool)
+  (HF : forall I J, related s I J -> F J = F I) :
+  forall vs I J, related s I J -> map F (instances J vs) = map F (instances I vs).
+Proof.
+  induction vs as [|[v ty] vs IH]; intros I J HR.
+  - cbn [instances map]. f_equal. apply HF. exact HR.
+  - cbn [instances]. pose proof HR as (a & _). rewrite a.
+    induction (objs I ty) as [|o os IHo]; [reflexivity|].
+    cbn [flat_map]. rewrite !map_app. f_equal; [|exact IHo].
+    apply IH. apply related_bind. exact HR.
+Qed.
+
+Lemma key_fl_fsym s g ws : key_fsym s g = false -> key_fl s g ws = false.
+Proof.
+  unfold key_fsym, key_fl. induction s as [|[k v] s IH]; [reflexivity|]. cbn [existsb fst].
+  intros H. apply orb_false_iff in H. destruct H as [H1 H2]. rewrite (IH H2), orb_false_r.
+  destruct k; try reflexivity. destruct (ground_args args); [|reflexivity]. rewrite H1. reflexivity.
+Qed.
+
+Lemma evals_rel sc I J l :
+  Forall (fun e => eval sc e J = eval sc e I) l -> evals sc J l = evals sc I l.
+Proof. induction 1 as [|x l Hx _ IH]; [reflexivity|]. cbn [evals]. rewrite Hx, IH. reflexivity. Qed.
+Lemma ebools_rel sc I J l :
+  Forall (fun e => eval sc e J = eval sc e I) l -> ebools sc J l = ebools sc I l.
+Proof. induction 1 as [|x l Hx _ IH]; [reflexivity|]. cbn [ebools]. rewrite Hx, IH. reflexivity. Qed.
+Lemma enums_rel sc I J l :
+  Forall (fun e => eval sc e J = eval sc e I) l -> enums sc J l = enums sc I l.
+Proof. induction 1 as [|x l Hx _ IH]; [reflexivity|]. cbn [enums]. rewrite Hx, IH. reflexivity. Qed.
+
+Lemma eval_unread sc s e : forall I J, related s I J -> unread s e = true -> eval sc e J = eval sc e I.
+Proof.
+  induction e using expr_ind'; intros I J HR Hu; pose proof HR as (Hob & Hif & Hpar & Hvar & Hfl);
+    cbn [unread] in Hu; nfsplit; try reflexivity.
+  - cbn [eval]. apply Hpar. apply negb_true_iff. exact Hu.
+  - cbn [eval]. apply Hvar. apply negb_true_iff. exact Hu.
+  - (* Fluent *)
+    rewrite !eval_EFluent.
+    assert (E : evals sc J args = evals sc I args).
+    { apply evals_rel. rewrite Forall_forall in *. intros x Hx. apply (H x Hx I J HR).
+      match goal with Hf : forallb (unread s) args = true |- _ => rewrite forallb_forall in Hf; auto end. }
+    rewrite E. destruct (evals sc I args) as [ws|] eqn:Ev; [|reflexivity].
+    apply Hfl. destruct (ground_args args) as [us|] eqn:G.
+    + rewrite (evals_ground sc I args us G) in Ev. inversion Ev; subst. apply negb_true_iff. assumption.
+    + apply key_fl_fsym. apply negb_true_iff. assumption.
+  - rewrite !eval_EIFun. rewrite Hif.
+    rewrite (evals_rel sc I J args); [reflexivity|].
+    rewrite Forall_forall in *. intros x Hx. apply (H x Hx I J HR). rewrite forallb_forall in Hu. auto.
+  - rewrite !eval_EAnd. rewrite (ebools_rel sc I J l); [reflexivity|].
+    rewrite Forall_forall in *. intros x Hx. apply (H x Hx I J HR). rewrite forallb_forall in Hu. auto.
+  - rewrite !eval_EOr. rewrite (ebools_rel sc I J l); [reflexivity|].
+    rewrite Forall_forall in *. intros x Hx. apply (H x Hx I J HR). rewrite forallb_forall in Hu. auto.
+  - rewrite !eval_ENot. rewrite (IHe I J HR Hu). reflexivity.
+  - rewrite !eval_EImplies. rewrite (IHe1 I J HR), (IHe2 I J HR) by assumption. reflexivity.
+  - rewrite !eval_EIff. rewrite (IHe1 I J HR), (IHe2 I J HR) by assumption. reflexivity.
+  - rewrite !eval_EExists.
+    rewrite (inst_related s (fun K => as_bool (eval sc e K))) with (I := I); [reflexivity | | exact HR].
+    intros I' J' HR'. rewrite (IHe I' J' HR' Hu). reflexivity.
+  - rewrite !eval_EForall.
+    rewrite (inst_related s (fun K => as_bool (eval sc e K))) with (I := I); [reflexivity | | exact HR].
+    intros I' J' HR'. rewrite (IHe I' J' HR' Hu). reflexivity.
+  - rewrite !eval_EPlus. rewrite (enums_rel sc I J l); [reflexivity|].
+    rewrite Forall_forall in *. intros x Hx. apply (H x Hx I J HR). rewrite forallb_forall in Hu. auto.
+  - rewrite !eval_EMinus. rewrite (IHe1 I J HR), (IHe2 I J HR) by assumption. reflexivity.
+  - rewrite !eval_ETimes. rewrite (enums_rel sc I J l); [reflexivity|].
+    rewrite Forall_forall in *. intros x Hx. apply (H x Hx I J HR). rewrite forallb_forall in Hu. auto.
+  - rewrite !eval_EDiv. rewrite (IHe1 I J HR), (IHe2 I J HR) by assumption. reflexivity.
+  - rewrite !eval_ELe. rewrite (IHe1 I J HR), (IHe2 I J HR) by assumption. reflexivity.
+  - rewrite !eval_ELt. rewrite (IHe1 I J HR), (IHe2 I J HR) by assumption. reflexivity.
+  - rewrite !eval_EEquals. rewrite (IHe1 I J HR), (IHe2 I J HR) by assumption. reflexivity.
+Qed.
+
+(* an entry of s only changes what is a key of s *)
+Lemma related_upd1 s I0 sc kv I J : In kv s -> related s I J -> related s I (upd1 I0 sc kv J).
+Proof.
+  intros Hin (a & b & c & d & e). destruct kv as [k v]. unfold upd1. cbn [fst snd].
+  destruct k; try (repeat split; assumption).
+  - (* EParam *)
+    repeat split; try assumption. intros q Hq. cbn [par]. destruct (q =? p)%N eqn:E; [|apply c; exact Hq].
+    apply N.eqb_eq in E. subst. exfalso.
+    assert (X : key_par s p = true).
+    { unfold key_par. apply existsb_exists. exists (EParam p, v). split; [exact Hin | cbn [fst]; apply N.eqb_refl]. }
+    congruence.
+  - (* EVar *)
+    repeat split; try assumption. intros x Hx. cbn [var]. destruct (x =? v0)%N eqn:E; [|apply d; exact Hx].
+    apply N.eqb_eq in E. subst. exfalso.
+    assert (X : key_var s v0 = true).
+    { unfold key_var. apply existsb_exists. exists (EVar v0 ty, v). split; [exact Hin | cbn [fst]; apply N.eqb_refl]. }
+    congruence.
+  - (* EFluent *)
+    destruct (ground_args args) as [ws|] eqn:G; [|repeat split; assumption].
+    repeat split; try assumption. intros g us Hg. cbn [fl].
+    destruct ((g =? f)%N && values_eqb us ws) eqn:E; [|apply e; exact Hg].
+    apply andb_true_iff in E. destruct E as [E1 E2]. apply N.eqb_eq in E1. subst. exfalso.
+    assert (X : key_fl s f us = true).
+    { unfold key_fl. apply existsb_exists. exists (EFluent f args, v). split; [exact Hin|].
+      cbn [fst]. rewrite G, N.eqb_refl, E2. reflexivity. }
+    congruence.
+Qed.
+
+Lemma related_fold s I0 sc I : forall s', incl s' s -> related s I (fold_right (upd1 I0 sc) I s').
+Proof.
+  induction s' as [|kv s' IH]; intros Hinc; [apply related_refl|].
+  cbn [fold_right]. apply related_upd1.
+  - apply Hinc. left; reflexivity.
+  - apply IH. intros x Hx. apply Hinc. right; exact Hx.
+Qed.
+
+Lemma related_updated sc s I : related s I (updated sc s I).
+Proof. unfold updated. apply related_fold. apply incl_refl. Qed.
+
+(* what the update gives the key itself *)
+Lemma upd1_self I0 sc k v J : leaf_key k = true -> eval sc k (upd1 I0 sc (k, v) J) = eval sc v I0.
+Proof.
+  intros Hl. unfold upd1. cbn [fst snd]. destruct k; try discriminate.
+  - cbn [eval par]. rewrite N.eqb_refl. reflexivity.
+  - cbn [eval var]. rewrite N.eqb_refl. reflexivity.
+  - cbn [leaf_key] in Hl. destruct (ground_args args) as [ws|] eqn:G; [|discriminate].
+    rewrite eval_EFluent. rewrite (evals_ground _ _ args ws G). cbn [fl]. rewrite N.eqb_refl, values_eqb_refl. reflexivity.
+Qed.
+
+(* an entry for a different leaf does not change what a leaf key evaluates to *)
+Lemma upd1_other I0 sc k0 v0 s' k v J :
+  key_same k0 s' = false -> In (k, v) s' -> leaf_key k = true ->
+  eval sc k (upd1 I0 sc (k0, v0) J) = eval sc k J.
+Proof.
+  intros Hs Hin Hl. unfold upd1. cbn [fst snd].
+  destruct k0; try reflexivity.
+  - (* k0 = EParam p *)
+    destruct k; try discriminate; try reflexivity.
+    + cbn [eval par]. destruct (p0 =? p)%N eqn:E; [|reflexivity]. apply N.eqb_eq in E. subst. exfalso.
+      cbn [key_same] in Hs. assert (X : key_par s' p = true).
+      { unfold key_par. apply existsb_exists. exists (EParam p, v). split; [exact Hin | cbn [fst]; apply N.eqb_refl]. }
+      congruence.
+    + cbn [leaf_key] in Hl. destruct (ground_args args) as [ws|] eqn:G; [|discriminate].
+      rewrite !eval_EFluent. rewrite !(evals_ground _ _ args ws G). reflexivity.
+  - (* k0 = EVar *)
+    destruct k; try discriminate; try reflexivity.
+    + cbn [eval var]. destruct (v2 =? v1)%N eqn:E; [|reflexivity]. apply N.eqb_eq in E. subst. exfalso.
+      cbn [key_same] in Hs. assert (X : key_var s' v1 = true).
+      { unfold key_var. apply existsb_exists. exists (EVar v1 ty0, v). split; [exact Hin | cbn [fst]; apply N.eqb_refl]. }
+      congruence.
+    + cbn [leaf_key] in Hl. destruct (ground_args args) as [ws|] eqn:G; [|discriminate].
+      rewrite !eval_EFluent. rewrite !(evals_ground _ _ args ws G). reflexivity.
+  - (* k0 = EFluent *)
+    cbn [key_same] in Hs. destruct (ground_args args) as [ws0|] eqn:G0; [|reflexivity].
+    destruct k; try discriminate; try reflexivity.
+    cbn [leaf_key] in Hl. destruct (ground_args args0) as [ws|] eqn:G; [|discriminate].
+    rewrite !eval_EFluent. rewrite !(evals_ground _ _ args0 ws G). cbn [fl].
+    destruct ((f0 =? f)%N && values_eqb ws ws0) eqn:E; [|reflexivity].
+    apply andb_true_iff in E. destruct E as [E1 E2]. apply N.eqb_eq in E1. apply values_eqb_eq in E2. subst. exfalso.
+    assert (X : key_fl s' f ws0 = true).
+    { unfold key_fl. apply existsb_exists. exists (EFluent f args0, v). split; [exact Hin|].
+      cbn [fst]. rewrite G, N.eqb_refl, values_eqb_refl. reflexivity. }
+    congruence.
+Qed.
+
+Lemma keys_ok_leaf s k v : keys_ok s = true -> In (k, v) s -> leaf_key k = true.
+Proof.
+  induction s as [|[k0 v0] s IH]; [intros _ []|]. cbn [keys_ok]. intros H Hin. nfsplit.
+  destruct Hin as [Hin|Hin]; [inversion Hin; subst; assumption | apply IH; assumption].
+Qed.
+
+Lemma updated_key I0 sc I s : keys_ok s = true ->
+  forall k v, In (k, v) s -> eval sc k (fold_right (upd1 I0 sc) I s) = eval sc v I0.
+Proof.
+  induction s as [|[k0 v0] s IH]; intros Hok k v Hin; [destruct Hin|].
+  cbn [keys_ok] in Hok. nfsplit. cbn [fold_right]. destruct Hin as [Hin|Hin].
+  - inversion Hin; subst. apply upd1_self. assumption.
+  - rewrite (upd1_other I0 sc k0 v0 s k v); [apply IH; assumption | | exact Hin | eapply keys_ok_leaf; eassumption].
+    apply negb_true_iff. assumption.
+Qed.
+
+Lemma unread_not s y : unread s (ENot y) = unread s y.
+Proof. reflexivity. Qed.
+
+(* for distinct leaf keys whose replacements (and the result) read no key:
+   evaluating the result in I  =  evaluating the original in I updated by the map *)
+Theorem subst_eval_updated sc s e I :
+  nf e = true -> capture_free s e = true -> keys_ok s = true ->
+  (forall k v, In (k, v) s -> unread s v = true) ->
+  unread s (substitute s e) = true ->
+  (forall k y, In (k, ENot y) s -> bool_or_undef (eval sc y I)) ->
+  eval sc (substitute s e) I = eval sc e (updated sc s I).
+Proof.
+  intros Hnf Hcf Hok Hval Hres Hnot.
+  pose proof (related_updated sc s I) as HR.
+  rewrite <- (eval_unread sc s (substitute s e) I (updated sc s I) HR Hres).
+  apply subst_eval; try assumption.
+  - intros k v Hin. unfold updated. rewrite (updated_key I sc I s Hok k v Hin).
+    symmetry. apply (eval_unread sc s v I _ HR). apply (Hval k v Hin).
+  - intros k y Hin. rewrite (eval_unread sc s y I _ HR); [apply (Hnot k y Hin)|].
+    rewrite <- unread_not. apply (Hval k _ Hin).
+Qed.
+
+(* the same statement with both sides evaluated in the updated interpretation needs no condition on the result *)
+Theorem subst_eval_in_updated sc s e I :
+  nf e = true -> capture_free s e = true -> keys_ok s = true ->
+  (forall k v, In (k, v) s -> unread s v = true) ->
+  (forall k y, In (k, ENot y) s -> bool_or_undef (eval sc y I)) ->
+  eval sc (substitute s e) (updated sc s I) = eval sc e (updated sc s I).
+Proof.
+  intros Hnf Hcf Hok Hval Hnot.
+  pose proof (related_updated sc s I) as HR.
+  apply subst_eval; try assumption.
+  - intros k v Hin. unfold updated. rewrite (updated_key I sc I s Hok k v Hin).
+    symmetry. apply (eval_unread sc s v I _ HR). apply (Hval k v Hin).
+  - intros k y Hin. rewrite (eval_unread sc s y I _ HR); [apply (Hnot k y Hin)|].
+    rewrite <- unread_not. apply (Hval k _ Hin).
+Qed.
